@@ -190,6 +190,11 @@ func decodeStored(stored []byte) (head, fin, toks string) {
 func fetchExec(c *Ctx, op string) {
 	f := strings.Fields(op)
 	whKind, mode, mut := f[2], f[3], f[4]
+	ufStr := losslessUnpackStr
+	if strings.HasSuffix(mode, "+alt") { // an altering unpack filter: the comparison must still be on the prefilter hash
+		mode = strings.TrimSuffix(mode, "+alt")
+		ufStr = "uid=7,gid=8,mtime=@1234,sticky=follow,setid=follow,dev=follow"
+	}
 	fsx := parseFilesetTok(f[5])
 	caseCounter++
 	base := filepath.Join(c.Work, fmt.Sprintf("fe%d", caseCounter))
@@ -201,7 +206,7 @@ func fetchExec(c *Ctx, op string) {
 	os.Setenv("RIO_BASE", filepath.Join(base, "riobase"))
 	ctx := context.Background()
 	pf := api.MustParseFilesetPackFilter(losslessPackStr)
-	uf := api.MustParseFilesetUnpackFilter(losslessUnpackStr)
+	uf := api.MustParseFilesetUnpackFilter(ufStr)
 	if err := Materialize(fsx, src, nil); err != nil {
 		c.EmitR(op, "skip", "skip")
 		return
@@ -234,11 +239,14 @@ func fetchExec(c *Ctx, op string) {
 	c.EmitR(op, modelOp, res)
 	shelf := filepath.Join(cache, "tar", "fileset", id.Hash[0:3], id.Hash[3:6], id.Hash)
 	_, shelfErr := os.Lstat(shelf)
+	if sh, _ := filepath.Glob(filepath.Join(cache, "tar", "fileset", "*", "*", "*")); len(sh) > 0 {
+		shelfErr = nil // any shelf at all (an altering filter shelves under the filtered hash)
+	}
 	switch {
 	case pan3 != "":
 		c.PropFail("fetch-panic", "unpack of an altered ware panicked: "+pan3, op)
 	case preserving:
-		if res != "ok "+id.Hash {
+		if (ufStr == losslessUnpackStr && res != "ok "+id.Hash) || !strings.HasPrefix(res, "ok ") {
 			c.PropFail("fetch-refused-valid", fmt.Sprintf("a ware altered only in encoding (%s) was not accepted: %s", mut, res), op)
 		}
 	default:
@@ -412,7 +420,11 @@ func fetchEngine(c *Ctx) {
 			case "dropentry":
 				mut = fmt.Sprintf("dropentry:%d", c.Intn(50))
 			}
-			op := fmt.Sprintf("fetch tar %s %s %s %s", []string{"ca", "file"}[c.Intn(2)], modes[c.Intn(4)], mut, filesetTok(fsx))
+			mode := modes[c.Intn(4)]
+			if c.Chance(1, 3) {
+				mode += "+alt"
+			}
+			op := fmt.Sprintf("fetch tar %s %s %s %s", []string{"ca", "file"}[c.Intn(2)], mode, mut, filesetTok(fsx))
 			fetchExec(c, op)
 		}
 	}
